@@ -39,6 +39,44 @@ Definition HKDF_Extract (h : halg) : bytes -> bytes -> bytes :=
 Definition HKDF_Expand (h : halg) : bytes -> bytes -> nat -> bytes :=
   match h with SHA256 => hkdf_expand_sha256_spec | SHA384 => hkdf_expand_sha384_spec end.
 
+(* ================================================================== the labels, by the role of what is derived
+   RFC 5246 8.1 / 6.3 / 7.4.9, RFC 7627 4, RFC 8446 7.1 / 7.2 / 7.3 / 4.4.3 / 4.4.4 / 4.6.1 / 4.2.11.2.
+   Every definition below uses these constants; rfc_labels is the same set as a table (role name, label) for the
+   run-time tie: the label bytes the library passes at each derivation site are compared with it. *)
+Definition LBL_master_secret : bytes := str "master secret".
+Definition LBL_extended_master_secret : bytes := str "extended master secret".
+Definition LBL_key_expansion : bytes := str "key expansion".
+Definition LBL_client_finished : bytes := str "client finished".
+Definition LBL_server_finished : bytes := str "server finished".
+Definition LBL_tls13_prefix : bytes := str "tls13 ".
+Definition LBL_derived : bytes := str "derived".
+Definition LBL_c_e_traffic : bytes := str "c e traffic".
+Definition LBL_e_exp_master : bytes := str "e exp master".
+Definition LBL_c_hs_traffic : bytes := str "c hs traffic".
+Definition LBL_s_hs_traffic : bytes := str "s hs traffic".
+Definition LBL_c_ap_traffic : bytes := str "c ap traffic".
+Definition LBL_s_ap_traffic : bytes := str "s ap traffic".
+Definition LBL_exp_master : bytes := str "exp master".
+Definition LBL_res_master : bytes := str "res master".
+Definition LBL_key : bytes := str "key".
+Definition LBL_iv : bytes := str "iv".
+Definition LBL_finished : bytes := str "finished".
+Definition LBL_resumption : bytes := str "resumption".
+Definition LBL_res_binder : bytes := str "res binder".
+Definition LBL_ext_binder : bytes := str "ext binder".
+Definition LBL_traffic_upd : bytes := str "traffic upd".
+Definition LBL_cv_server : bytes := str "TLS 1.3, server CertificateVerify".
+Definition LBL_cv_client : bytes := str "TLS 1.3, client CertificateVerify".
+Definition rfc_labels : list (bytes * bytes) :=
+  [(str "master", LBL_master_secret); (str "ext_master", LBL_extended_master_secret); (str "key_block", LBL_key_expansion);
+   (str "client_finished", LBL_client_finished); (str "server_finished", LBL_server_finished);
+   (str "hkdf_prefix", LBL_tls13_prefix); (str "derived", LBL_derived); (str "res_binder", LBL_res_binder); (str "ext_binder", LBL_ext_binder);
+   (str "c_e_traffic", LBL_c_e_traffic); (str "e_exp_master", LBL_e_exp_master); (str "c_hs_traffic", LBL_c_hs_traffic);
+   (str "s_hs_traffic", LBL_s_hs_traffic); (str "c_ap_traffic", LBL_c_ap_traffic); (str "s_ap_traffic", LBL_s_ap_traffic);
+   (str "exp_master", LBL_exp_master); (str "res_master", LBL_res_master); (str "finished", LBL_finished); (str "key", LBL_key);
+   (str "iv", LBL_iv); (str "resumption", LBL_resumption); (str "traffic_upd", LBL_traffic_upd);
+   (str "cv_server", LBL_cv_server); (str "cv_client", LBL_cv_client)].
+
 (* ================================================================== TLS 1.0 - 1.2 *)
 (* RFC 5246 5:   P_hash(secret, seed) = HMAC_hash(secret, A(1) + seed) + HMAC_hash(secret, A(2) + seed) + ...
                  A(0) = seed,  A(i) = HMAC_hash(secret, A(i-1)) *)
@@ -80,13 +118,13 @@ Definition hs_hash (v : tlsver) (h : halg) (m : bytes) : bytes :=
 
 (* RFC 5246 8.1 *)
 Definition master_secret (v : tlsver) (h : halg) (pms cr sr : bytes) : bytes :=
-  tls_prf v h pms (str "master secret") (cr ++ sr) 48.
+  tls_prf v h pms LBL_master_secret (cr ++ sr) 48.
 (* RFC 7627 4:  master_secret = PRF(pre_master_secret, "extended master secret", session_hash)[0..47] *)
 Definition extended_master_secret (v : tlsver) (h : halg) (pms session_hash : bytes) : bytes :=
-  tls_prf v h pms (str "extended master secret") session_hash 48.
+  tls_prf v h pms LBL_extended_master_secret session_hash 48.
 (* RFC 5246 6.3:  key_block = PRF(master_secret, "key expansion", server_random + client_random) *)
 Definition key_block (v : tlsver) (h : halg) (ms cr sr : bytes) (L : nat) : bytes :=
-  tls_prf v h ms (str "key expansion") (sr ++ cr) L.
+  tls_prf v h ms LBL_key_expansion (sr ++ cr) L.
 
 (* RFC 5246 6.3: client_write_MAC_key, server_write_MAC_key, client_write_key, server_write_key,
    client_write_IV, server_write_IV - in this order *)
@@ -176,13 +214,13 @@ Definition tls12_handshake (v : tlsver) (s : suite) (ems : bool) (secret cr sr :
   (* RFC 5246 7.4.9: verify_data = PRF(master_secret, finished_label, Hash(handshake_messages))[0..11];
      handshake_messages = all messages up to but not including this one.  Full handshake: the client's Finished is
      the first, abbreviated: the server's *)
-  let fin (k : nat) (label : string) :=
-      tls_prf v h master (str label) (hs_hash v h (concat (before_nth (is_type HT_FINISHED) k msgs))) 12 in
+  let fin (k : nat) (label : bytes) :=
+      tls_prf v h master label (hs_hash v h (concat (before_nth (is_type HT_FINISHED) k msgs))) 12 in
   {| h_session_hash := if full && ems then session_hash else [];
      h_master := master;
      h_keys := partition_key_block (mac_len (s_mac s)) (s_keylen s) (fixed_iv_len v (s_cipher s)) kb;
-     h_client_finished := fin (if full then 0 else 1) "client finished"%string;
-     h_server_finished := fin (if full then 1 else 0) "server finished"%string;
+     h_client_finished := fin (if full then 0 else 1) LBL_client_finished;
+     h_server_finished := fin (if full then 1 else 0) LBL_server_finished;
      h_cv_content_hash := match split_nth (is_type HT_CERTIFICATE_VERIFY) 0 msgs with
                           | Some (pre, _) => hs_hash v h (concat pre) | None => [] end |}.
 
@@ -266,7 +304,7 @@ Definition body_len12 (s : suite) (n : nat) : nat :=
      struct { uint16 length = Length; opaque label<7..255> = "tls13 " + Label; opaque context<0..255> = Context; } HkdfLabel;
      HKDF-Expand-Label(Secret, Label, Context, Length) = HKDF-Expand(Secret, HkdfLabel, Length) *)
 Definition hkdf_label (L : nat) (label context : bytes) : bytes :=
-  be16 L ++ N.of_nat (6 + length label) :: str "tls13 " ++ label ++ N.of_nat (length context) :: context.
+  be16 L ++ N.of_nat (6 + length label) :: LBL_tls13_prefix ++ label ++ N.of_nat (length context) :: context.
 Definition hkdf_expand_label (h : halg) (secret label context : bytes) (L : nat) : bytes :=
   HKDF_Expand h secret (hkdf_label L label context) L.
 (* Derive-Secret(Secret, Label, Messages) = HKDF-Expand-Label(Secret, Label, Transcript-Hash(Messages), Hash.length);
@@ -305,36 +343,39 @@ Definition schedule13 (h : halg) (psk : option bytes) (resumption_psk : bool) (e
   let z := zeros (hlen h) in
   let empty := Hash h [] in
   let early := HKDF_Extract h z (match psk with Some p => p | None => z end) in
-  let hs := HKDF_Extract h (derive_secret_h h early (str "derived") empty) (match ecdhe with Some e => e | None => z end) in
-  let master := HKDF_Extract h (derive_secret_h h hs (str "derived") empty) z in
+  let hs := HKDF_Extract h (derive_secret_h h early LBL_derived empty) (match ecdhe with Some e => e | None => z end) in
+  let master := HKDF_Extract h (derive_secret_h h hs LBL_derived empty) z in
   {| e_early := early;
-     e_binder_key := derive_secret_h h early (str (if resumption_psk then "res binder" else "ext binder")) empty;
-     e_c_e_traffic := derive_secret_h h early (str "c e traffic") th_ch;
-     e_e_exp_master := derive_secret_h h early (str "e exp master") th_ch;
+     e_binder_key := derive_secret_h h early (if resumption_psk then LBL_res_binder else LBL_ext_binder) empty;
+     e_c_e_traffic := derive_secret_h h early LBL_c_e_traffic th_ch;
+     e_e_exp_master := derive_secret_h h early LBL_e_exp_master th_ch;
      e_handshake := hs;
-     e_c_hs_traffic := derive_secret_h h hs (str "c hs traffic") th_ch_sh;
-     e_s_hs_traffic := derive_secret_h h hs (str "s hs traffic") th_ch_sh;
+     e_c_hs_traffic := derive_secret_h h hs LBL_c_hs_traffic th_ch_sh;
+     e_s_hs_traffic := derive_secret_h h hs LBL_s_hs_traffic th_ch_sh;
      e_master := master;
-     e_c_ap_traffic := derive_secret_h h master (str "c ap traffic") th_ch_sfin;
-     e_s_ap_traffic := derive_secret_h h master (str "s ap traffic") th_ch_sfin;
-     e_exp_master := derive_secret_h h master (str "exp master") th_ch_sfin;
-     e_res_master := derive_secret_h h master (str "res master") th_ch_cfin |}.
+     e_c_ap_traffic := derive_secret_h h master LBL_c_ap_traffic th_ch_sfin;
+     e_s_ap_traffic := derive_secret_h h master LBL_s_ap_traffic th_ch_sfin;
+     e_exp_master := derive_secret_h h master LBL_exp_master th_ch_sfin;
+     e_res_master := derive_secret_h h master LBL_res_master th_ch_cfin |}.
 
 (* RFC 8446 7.3:  [sender]_write_key = HKDF-Expand-Label(Secret, "key", "", key_length);  _iv: "iv", iv_length = 12 *)
-Definition traffic_key (h : halg) (secret : bytes) (keylen : nat) : bytes := hkdf_expand_label h secret (str "key") [] keylen.
-Definition traffic_iv (h : halg) (secret : bytes) : bytes := hkdf_expand_label h secret (str "iv") [] 12.
+Definition traffic_key (h : halg) (secret : bytes) (keylen : nat) : bytes := hkdf_expand_label h secret LBL_key [] keylen.
+Definition traffic_iv (h : halg) (secret : bytes) : bytes := hkdf_expand_label h secret LBL_iv [] 12.
 (* RFC 8446 4.4.4:  finished_key = HKDF-Expand-Label(BaseKey, "finished", "", Hash.length);
                     verify_data = HMAC(finished_key, Transcript-Hash(Handshake Context, Certificate?, CertificateVerify?) ) *)
-Definition finished_key (h : halg) (base : bytes) : bytes := hkdf_expand_label h base (str "finished") [] (hlen h).
+Definition finished_key (h : halg) (base : bytes) : bytes := hkdf_expand_label h base LBL_finished [] (hlen h).
 Definition verify_data13 (h : halg) (base th : bytes) : bytes := HMAC h (finished_key h base) th.
+(* RFC 8446 7.2:  application_traffic_secret_N+1 = HKDF-Expand-Label(application_traffic_secret_N, "traffic upd", "", Hash.length)
+   (KeyUpdate; MatrixSSL does not implement it - no tie) *)
+Definition next_traffic_secret (h : halg) (secret : bytes) : bytes := hkdf_expand_label h secret LBL_traffic_upd [] (hlen h).
 (* RFC 8446 4.6.1:  PSK = HKDF-Expand-Label(resumption_master_secret, "resumption", ticket_nonce, Hash.length) *)
 Definition resumption_psk (h : halg) (res_master nonce : bytes) : bytes :=
-  hkdf_expand_label h res_master (str "resumption") nonce (hlen h).
+  hkdf_expand_label h res_master LBL_resumption nonce (hlen h).
 (* NewSessionTicket: ticket_lifetime(4) ticket_age_add(4) ticket_nonce<0..255> ... *)
 Definition nst_nonce (m : bytes) : bytes := let b := msg_body m in take 9 (N.to_nat (nth 8 b 0%N)) b.
 (* RFC 8446 4.4.3: 64 x 0x20 || context string || 0x00 || Transcript-Hash(Handshake Context, Certificate) *)
 Definition cv13_content (server : bool) (th : bytes) : bytes :=
-  repeat 0x20%N 64 ++ str (if server then "TLS 1.3, server CertificateVerify" else "TLS 1.3, client CertificateVerify") ++ 0%N :: th.
+  repeat 0x20%N 64 ++ (if server then LBL_cv_server else LBL_cv_client) ++ 0%N :: th.
 
 (* everything RFC 8446 derives from (PSK, (EC)DHE, the handshake messages in order) *)
 Record hs13 := {
